@@ -36,17 +36,19 @@ def cases(tier, seed):
         yield f"C16|bler|partition|bs={bs}", {"kind": "partition", "metric": "bler", "bs": bs, "tier": tier}
     for dt in ("float32", "float64", "int64"):
         yield f"C16|bler|symbols|{dt}", {"kind": "symbols", "dtype": dt, "tier": tier}
+    for dt in ("float64", "float16", "bfloat16", "int64", "int32", "uint8", "bool"):
+        yield f"C16|dtypes|{dt}", {"kind": "dtypes", "dtype": dt, "tier": tier}
     Ls = range(1, 7) if tier == "quick" else range(1, 9)
     for L in Ls:
         yield f"C16|oneshot|L={L}", {"kind": "oneshot", "L": L, "tier": tier}
 
 
 def component_of(p):
-    return "ber" if p.get("metric") == "ber" else "bler" if p["kind"] != "oneshot" else "oneshot"
+    return "ber" if p.get("metric") == "ber" else "dtypes" if p["kind"] == "dtypes" else "bler" if p["kind"] != "oneshot" else "oneshot"
 
 
 def execute(p, res):
-    {"bfs": bfs_case, "partition": partition_case, "oneshot": oneshot_case, "counts": counts_case, "symbols": symbols_case}[p["kind"]](p, res)
+    {"bfs": bfs_case, "partition": partition_case, "oneshot": oneshot_case, "counts": counts_case, "symbols": symbols_case, "dtypes": dtypes_case}[p["kind"]](p, res)
 
 
 # ----------------------------------------------------------------------------- helpers
@@ -301,6 +303,46 @@ def symbols_case(p, res):
                             res.viol("bler", cfg, clause, f"{how}: symbols of magnitude {base} differing by {step} at position {pos}, block_size={bs}: got {o[0]}, exact {o[1:] if how.startswith('forward') else o[1]}",
                                      {"base": base, "step": step, "pos": pos, "bs": bs, "how": how})
     res.sample({"dtype": p["dtype"], "steps": len(steps), "positions": R * W})
+
+
+def dtypes_case(p, res):
+    """bits presented in other dtypes (and as non-contiguous views): every pair of binary rows of length <= 4, one-shot and streamed; a metric may
+    decline a dtype (an error), it may not count differently"""
+    import torch
+    dt = getattr(torch, p["dtype"])
+    cfg = p["dtype"]
+    nb = 0
+    for L in (1, 2, 3, 4):
+        vecs = [list(v_) for v_ in product([0, 1], repeat=L)]
+        for x in vecs:
+            for y in vecs:
+                d = sum(a != b for a, b in zip(x, y))
+                for view in ("c", "t"):
+                    X = torch.tensor([x, y], dtype=torch.float32).to(dt)
+                    Y = torch.tensor([y, y], dtype=torch.float32).to(dt)
+                    if view == "t":
+                        if L == 1:
+                            continue
+                        X, Y = X.t().contiguous().t(), Y.t().contiguous().t()
+                    want = {"ber": (d, 2 * L), "bler": (1 if d else 0, 2), "bler1": (d, 2 * L)}
+                    for name, mk in (("ber", lambda: make_metric("ber", None)), ("bler", lambda: make_metric("bler", None)), ("bler1", lambda: make_metric("bler", 1))):
+                        e, t = want[name]
+                        try:
+                            m = mk()
+                            f = float(m.forward(X, Y))
+                            m.update(X, Y)
+                            m.update(Y, Y)
+                            c = counters(m, "ber" if name == "ber" else "bler")
+                        except Exception:  # noqa: BLE001
+                            res.rejected += 1
+                            continue
+                        res.ev(2, nontrivial=2 if d else 0, transitions=3)
+                        if not close(f, e, t) or c != (e, 2 * t):
+                            nb += 1
+                            if nb <= 4:
+                                res.viol(name[:4], cfg, "count" if not close(f, e, t) else "stream=oneshot",
+                                         f"{name} on {p['dtype']} bits{' (transposed view)' if view == 't' else ''} x={[x, y]} y={[y, y]}: forward {f}, counters after update+clean update {c}; exact {e}/{t}", {"x": x, "y": y, "view": view})
+    res.sample({"dtype": p["dtype"]})
 
 
 def partition_case(p, res):
